@@ -249,7 +249,10 @@ func (e *Eval) hardcoded(fr *Frame, cc *ssa.CallCommon, fn *ssa.Function, args [
 				e.declOwed()
 				c.Decl("bv2int_signed", "(define-fun bv2int_signed ((x (_ BitVec 64))) Int (ite (bvslt x #x0000000000000000) (- (bv2nat x) 18446744073709551616) (bv2nat x)))")
 				o := c.Get(st, "$owed")
-				d := fmt.Sprintf("(- (bv2int_signed %s) (bv2int_signed %s))", args[2].T, args[1].T)
+				// (the common +1 / -1 swaps are recognised without integer conversion)
+				w, _, _ := isInt(t)
+				d := fmt.Sprintf("(ite (= %s (bvadd %s %s)) 1 (ite (= %s (bvsub %s %s)) (- 1) (- (bv2int_signed %s) (bv2int_signed %s))))",
+					args[2].T, args[1].T, bvLit(w, 1), args[2].T, args[1].T, bvLit(w, 1), args[2].T, args[1].T)
 				c.Set(st, "$owed", ite(ok, sto(o, a.Base, fmt.Sprintf("(+ %s %s)", sel(o, a.Base), d)), o))
 			}
 		}
